@@ -36,3 +36,26 @@ Example ex_len : (validate_signature (repeat 121 255), validate_signature (repea
                   is_ok (parse_description (repeat 121 255)), is_ok (parse_description (repeat 121 256)))
                  = (Ok tt, Err, true, false).
 Proof. vm_compute. reflexivity. Qed.
+
+(* the empty signature (of an empty body): in the grammar, accepted by both functions, no types, no parts *)
+Example ex_empty : (parse_description [], validate_signature [], iter_all 1 []) = (Ok [], Ok tt, Ok []).
+Proof. vm_compute. reflexivity. Qed.
+Example ex_empty_grammar : GrammarSig [].
+Proof. split; [vm_compute; discriminate|apply scts_nil]. Qed.
+Example ex_empty_types : sig_of_types [] [].
+Proof. apply parse_description_spec. reflexivity. Qed.
+
+(* nesting inside a NON-first / NON-last member of a struct and inside a dict value: the depth counters must be
+   applied to every member. "(y" ++ nest_s n ++ ")" has n+1 struct levels around the innermost y *)
+Definition nest_mid (n : nat) : list N := [40; 121] ++ nest_s n ++ [121; 41].                 (* (y((..y..))y) *)
+Definition nest_last (n : nat) : list N := [40; 121] ++ nest_s n ++ [41].                     (* (y((..y..))) *)
+Definition nest_dictval (n : nat) : list N := [97; 123; 115; 40; 121] ++ nest_s n ++ [41; 125]. (* a{s(y((..y..)))} *)
+Example ex_depth_members :
+  (validate_signature (nest_mid 31), is_ok (parse_description (nest_mid 31)),
+   validate_signature (nest_mid 32), is_ok (parse_description (nest_mid 32)),
+   validate_signature (nest_last 31), is_ok (parse_description (nest_last 31)),
+   validate_signature (nest_last 32), is_ok (parse_description (nest_last 32)),
+   validate_signature (nest_dictval 31), is_ok (parse_description (nest_dictval 31)),
+   validate_signature (nest_dictval 32), is_ok (parse_description (nest_dictval 32)))
+  = (Ok tt, true, Err, false, Ok tt, true, Err, false, Ok tt, true, Err, false).
+Proof. vm_compute. reflexivity. Qed.
